@@ -91,6 +91,10 @@ class Info(object):
             'PERIM' in self.dims
         if not hd:
             return False
+        if len(self.vars) < 2:
+            # no data variable: VAR is defined as max(NVARS, 1) and the
+            # wrappers cannot keep VAR-LIST/NVARS/VAR/TFLAG coherent
+            return False
         for k, (vd, kind) in self.vars.items():
             if k == 'TFLAG':
                 continue
@@ -433,7 +437,10 @@ def draw_apply(draw, info):
     chosen = list(draw(st.permutations(pos))[:k])
     funcs = []
     for d in chosen:
-        if allpos and draw(st.integers(0, 2)) == 0:
+        # IOAPI: the time flags are reduced by name only (a callable would
+        # be applied to TFLAG's YYYYDDD/HHMMSS integers themselves)
+        if allpos and draw(st.integers(0, 2)) == 0 and \
+                not (info.cls == 'ioapi' and d == 'TSTEP'):
             funcs.append([d, 'call', draw(st.sampled_from(CALLABLES))])
         else:
             funcs.append([d, 'name', draw(st.sampled_from(REDUCERS))])
